@@ -12,8 +12,8 @@
 (*                     verifyFSPathEndpoint                                *)
 (*   ClientMkdir       os.OpenRoot(base).Mkdir(leaf)                       *)
 (*   ClientSendsResult the result code message (may fail: SendFails)       *)
-(*   ClientGetsVerdict the server's verification result (may be lost)      *)
-(*   ClientCleansUp    Root.Remove(leaf) and return                        *)
+(*   ClientGetsVerdict the server's verification result (may be lost),     *)
+(*                     then the deferred Root.Remove(leaf) and return      *)
 (* A path is an absolute/relative flag plus a sequence of COMPONENT        *)
 (* CLASSES; the Go side concretises every class (several concrete strings  *)
 (* per class) and classifies mutated strings back into these classes.      *)
